@@ -264,3 +264,21 @@ def runes_legs(v, acc, timeout=600):
     for r in recs:
         if r.get("kind") == "mismatch":
             v.fail("runes-replay", {"id": r["id"], "why": r["why"]})
+
+
+def pad_leg(v, acc, timeout=600):
+    """The read buffer under the tokenizer (V2Buffer's ChunkedEqualsWhole, evaluated on the real code): a multi-byte text slid over
+    every alignment to the buffer must tokenise as its lines do one by one."""
+    out = os.path.join(sub("out"), "pad.ndjson")
+    if os.path.exists(out):
+        os.remove(out)
+    rc, txt, _ = go_overlay_test("v2", ["common/util_test.go", "v2/tok_driver_test.go"], "^TestVerifPadTokens$", env={"VERIF_OUT": out}, timeout=timeout)
+    recs = read_ndjson(out)
+    summ = [r for r in recs if r.get("kind") == "summary"]
+    if vlib.build_failed(txt) or not summ:
+        raise vlib.Inconclusive("pad driver failed:\n" + txt[-2500:])
+    acc.evaluations += summ[0]["vectors"]
+    acc.extra["pad_sweep"] = summ[0]
+    for r in recs:
+        if r.get("kind") == "mismatch":
+            v.fail("buffer-alignment", r)
